@@ -1820,6 +1820,7 @@ class ListProxy(list):
                 raise ValueError(
                     f'dictionary update sequence element #{i} has length {n}; 2 is required'
                 )
+            hash(o[0])    # (an unhashable key raises TypeError here, not half-way)
             pairs.append(o)
         with self._trigger():
             for k, v in pairs:
